@@ -53,7 +53,23 @@ def operator_receives_operand_list(ctx, facts, roles, t, cfg, K, result_clause=T
     ctor_path = "%s::%s" % (roles.evaluated_adt, roles.owned_variant)
     for c in cands:
         if c[0] == "call" and c[1] and "from_residual" in c[1]["path"]:
-            continue   # `?`: an error of the operator or of an operand's evaluation, handed on
+            # `?`: an error of the operator or of an operand's evaluation, handed on.  A `?` on a private function that
+            # neither is the operator nor reaches the interpreter (a guard, a counter, a cache) is an exit of the
+            # evaluator's own making: the operation can fail although operator and operands do not.
+            own = []
+
+            def _own(y):
+                if y[0] == "call" and y[1] and y[1].get("path", "").endswith("as std::ops::Try>::branch") and y[2]:
+                    x_ = strip_refs(y[2][0])
+                    if x_[0] == "call" and x_[1] and x_[1].get("local") and not is_execute(x_) and x_[1]["key"] not in roles.evaluators and x_[1]["key"] not in roles.sinks:
+                        reach_ = facts.reach([x_[1]["key"]])
+                        if not (reach_ & (set(roles.evaluators) | set(roles.sinks))):
+                            own.append(x_[1]["path"])
+                return False
+            expr_mentions(c, _own)
+            if own:
+                bad.append("the error of %s (a `?` on a function that is neither the operator nor an evaluation)" % own[0])
+            continue
         if c[0] == "call" and c[1] and c[1]["path"] == "std::result::Result::<T, E>::map":
             f = c[2][1]
             ctor = f[0] == "const" and "fn" in f[1] and f[1]["fn"]["path"].replace("::<'_>", "") == ctor_path
